@@ -280,8 +280,15 @@ CHECKS = [
      "answers to the model, comparing request traces exactly (p/lam 1e-12) and samples exactly, and evaluating the Lean spec "
      "predicates on the implementation's own samples and request parameters; plus runs with the real global RNG under "
      "np.random.seed (structural clauses, byte-for-byte reproducibility), callable samplers, error branches, source unchanged.",
-     BASE_NOTE + "That NumPy's primitives answer inside the textbook supports with the textbook means is assumed, not proved "
-     "('unbiased' is proved as parameter algebra, C11_mean); the smoothing noise is not modelled (only flags, sizes, strata, "
+     BASE_NOTE + "That NumPy's primitives answer inside the textbook supports with the textbook means is assumed, not proved: "
+     "it is the explicit hypothesis SA.C11U.Lawful (linearity, normalisation, support, means of binomial / Poisson / choice; "
+     "satisfiable, c11u_simpleOracle_lawful) of the expectation semantics in SA/Model/SamplingM.lean, where _sample_indices is "
+     "written once over a monad: on scripts it is the model (c11u_sampleIndicesM_state), on lawful expectation oracles "
+     "C11_unbiased proves mean multiplicity 1 of every scored sample and expected class / stratum sizes equal to the source's for "
+     "the program without at-least-one corrections, which equals the model on every script triggering no correction "
+     "(c11u_corrected_eq_uncorrected); by_label + replacement has no correction (c11u_byLabel_replacement). Every sixth case "
+     "compares the model's exact expectation under the true binomial/choice pmf (driver op c11expect) with the mean of 1500 real "
+     "samples. C11_mean remains the request-parameter form of the same clause; the smoothing noise is not modelled (only flags, sizes, strata, "
      "ordering with smoothing); the float product ratio*n is an oracle checked to be a faithful rounding; callable samplers are "
      "checked in the harness only. Progress and totality are theorems: on every ok prefix the next request is one NumPy accepts "
      "(C11_progress / _prefix / _iff: exactly when proportion sizes fit the classes), and a succeeding in-support script exists "
